@@ -31,6 +31,12 @@ func checkC04(c *Ctx) {
 	c.Rule("R4.10", "combined syncers keep every sink they are given, in order; nothing points into a pooled object after its release", 2)
 	cKeepsAll(c, "R4.10", c.Func(CorePath, "NewMultiWriteSyncer"), "zapcore.NewMultiWriteSyncer", "ret(cores[0:0])")
 	c8UseAfterRelease(c, "R4.10", c8ReleaseFns(c))
+	c.Rule("R4.11", "derived slog handlers never share a slice tail with their parent (a sibling derived later would overwrite the group names of entries being logged)", 0)
+	for _, m := range []string{"WithAttrs", "WithGroup"} {
+		if fn := c.Method(SlogPath, "Handler", m); c.Anchor("R4.11", "zapslog.Handler."+m, fn != nil) {
+			c7Appends(c, "R4.11", fn)
+		}
+	}
 
 	// R4.1 (shares the decision procedure of R8.4)
 	{
@@ -57,21 +63,7 @@ func checkC04(c *Ctx) {
 		}
 	}
 	// R4.4
-	cw := c.Func(ZapPath, "CombineWriteSyncers")
-	if c.Anchor("R4.4", "zap.CombineWriteSyncers", cw != nil) {
-		n := 0
-		for _, r := range Returns(cw) {
-			d := Desc(RetVals(r)[0])
-			atoms := AtomStrings(Guards(r))
-			if len(atoms) == 1 && atoms[0] == "len(writers) > 0" {
-				n++
-				c.Check(d == "Lock(NewMultiWriteSyncer(writers...))" || d == "Lock(NewMultiWriteSyncer(writers))", "R4.4", cw.String(), "locks-combined", r.Pos(), "a non-empty combination is returned wrapped in zapcore.Lock (%s)", d)
-			}
-		}
-		if n != 1 {
-			c.Bad("R4.4", cw.String(), "locks-combined", cw.Pos(), "no return on the non-empty path")
-		}
-	}
+	c4LocksCombined(c, "R4.4")
 	op := c.Func(ZapPath, "Open")
 	if c.Anchor("R4.4", "zap.Open", op != nil) {
 		ok := false
@@ -267,4 +259,65 @@ func ioCoreWriteShape(c *Ctx, w *ssa.Function) (bool, []string) {
 		}
 	}
 	return ok, others
+}
+
+// c4LocksCombined: with one or more writers, every path of zap.CombineWriteSyncers returns zapcore.Lock(...) around
+// zapcore.NewMultiWriteSyncer of ALL the writers it was given: one mutex around the whole group, so that a line reaches
+// every destination before the next line reaches any (per-destination locks would let two goroutines' lines arrive
+// in different orders at different destinations, and leave a shared multi-writer unprotected).
+func c4LocksCombined(c *Ctx, rule string) {
+	cw := c.Func(ZapPath, "CombineWriteSyncers")
+	lock := c.Func(CorePath, "Lock")
+	multi := c.Func(CorePath, "NewMultiWriteSyncer")
+	if !c.Anchor(rule, "zap.CombineWriteSyncers / zapcore.Lock / zapcore.NewMultiWriteSyncer", cw != nil && lock != nil && multi != nil && len(cw.Params) == 1) {
+		return
+	}
+	writers := cw.Params[0]
+	resolve := func(st *ConcState, v ssa.Value) ssa.Value {
+		for k := 0; k < 12; k++ {
+			switch x := v.(type) {
+			case *ssa.MakeInterface:
+				v = x.X
+				continue
+			case *ssa.ChangeInterface:
+				v = x.X
+				continue
+			}
+			nx := st.Step(v)
+			if nx == nil {
+				break
+			}
+			v = nx
+		}
+		return v
+	}
+	for _, n := range []int64{1, 2, 3} {
+		nn := n
+		seqs, trunc := ConcPaths(cw, ConcCfg{
+			SliceLen: func(p *ssa.Parameter) (int64, bool) { return nn, p == writers },
+			Inline:   func(h *ssa.Function) bool { return h != lock && h != multi },
+			Event: func(in ssa.Instruction, st *ConcState) string {
+				r, ok := in.(*ssa.Return)
+				if !ok || len(r.Results) != 1 || len(st.cfg.stackDepth()) != 0 {
+					return ""
+				}
+				v := resolve(st, r.Results[0])
+				if cl, isCall := v.(*ssa.Call); isCall && cl.Call.StaticCallee() == lock && len(cl.Call.Args) == 1 {
+					in := resolve(st, cl.Call.Args[0])
+					if c2, isC2 := in.(*ssa.Call); isC2 && c2.Call.StaticCallee() == multi && len(c2.Call.Args) == 1 && resolve(st, c2.Call.Args[0]) == ssa.Value(writers) {
+						return "ret-lock(multi(writers))"
+					}
+					return "ret-lock(" + st.Desc(cl.Call.Args[0]) + ")"
+				}
+				return "ret-other(" + st.Desc(r.Results[0]) + ")"
+			},
+		})
+		var bad []string
+		for _, sq := range seqs {
+			if sq != "ret-lock(multi(writers))" {
+				bad = append(bad, sq)
+			}
+		}
+		c.Check(!trunc && len(seqs) > 0 && len(bad) == 0, rule, cw.String(), "locks-combined/"+itoa(int(n)), cw.Pos(), "with %d writer(s) every path returns zapcore.Lock(zapcore.NewMultiWriteSyncer(writers...)): one mutex around the whole group (offending: %v)", n, bad)
+	}
 }
